@@ -18,6 +18,34 @@ Theorem C07_src_Sector_translate_mut_is_translate : forall s d, src_Sector_trans
 Proof. exact src_sector_translate_mut_is_translate. Qed.
 Theorem C07_src_Arc_translate_mut_is_translate : forall a d, src_Arc_translate_mut a d = src_Arc_translate a d.
 Proof. exact src_arc_translate_mut_is_translate. Qed.
+(* round 5: constructors / accessors of Sector and Arc against the circle they are built on, and translate in closed form
+   (Sectormodel.se_translate / ar_translate: the top-left corner moves, diameter and angles are kept) *)
+Theorem C07_src_Sector_new_is_model : forall t d a w, src_Sector_new t d a w = Build_Sector t d a w.
+Proof. exact src_sector_new_eq. Qed.
+Theorem C07_src_Sector_with_center_is_model : forall c d a w, 0 <= d <= u32_max ->
+  src_Sector_with_center c d a w = Build_Sector (tl (with_center c (S d d))) d a w.
+Proof. exact src_sector_with_center_eq. Qed.
+Theorem C07_src_Sector_bounding_box_is_model : forall s, src_Sector_bounding_box s = circle_bbox (src_Sector_to_circle s).
+Proof. exact src_sector_bounding_box_eq. Qed.
+Theorem C07_src_Sector_center_is_model : forall s, 0 <= Sector_diameter s <= u32_max -> src_Sector_center s = circle_center (src_Sector_to_circle s).
+Proof. exact src_sector_center_eq. Qed.
+Theorem C07_src_Sector_center_2x_is_model : forall s, 0 <= Sector_diameter s <= i32_max -> src_Sector_center_2x s = circle_center_2x (src_Sector_to_circle s).
+Proof. exact src_sector_center_2x_eq. Qed.
+Theorem C07_src_Sector_translate_is_model : forall s d,
+  src_Sector_translate s d = Build_Sector (padd (Sector_top_left s) d) (Sector_diameter s) (Sector_angle_start s) (Sector_angle_sweep s).
+Proof. exact src_sector_translate_eq. Qed.
+Theorem C07_src_Arc_new_is_model : forall t d a w, src_Arc_new t d a w = Build_Arc t d a w.
+Proof. exact src_arc_new_eq. Qed.
+Theorem C07_src_Arc_from_circle_is_model : forall c a w, src_Arc_from_circle c a w = Build_Arc (c_tl c) (c_d c) a w.
+Proof. exact src_arc_from_circle_eq. Qed.
+Theorem C07_src_Arc_to_circle_is_model : forall a, src_Arc_to_circle a = Circ (Arc_top_left a) (Arc_diameter a).
+Proof. exact src_arc_to_circle_eq. Qed.
+Theorem C07_src_Arc_bounding_box_is_model : forall a, src_Arc_bounding_box a = circle_bbox (src_Arc_to_circle a).
+Proof. exact src_arc_bounding_box_eq. Qed.
+Theorem C07_src_Arc_translate_is_model : forall a d,
+  src_Arc_translate a d = Build_Arc (padd (Arc_top_left a) d) (Arc_diameter a) (Arc_angle_start a) (Arc_angle_sweep a).
+Proof. exact src_arc_translate_eq. Qed.
+
 Example C07_src_sector_arc_nonvacuous :
   Triangle_vertices (src_Triangle_translate_mut (Build_Triangle (P 0 0, P 1 2, P 3 4)) (P 10 (-1))) = (P 10 (-1), P 11 1, P 13 3) /\
   src_Arc_translate_mut (Build_Arc (P 1 1) 5 7 8) (P 2 3) = Build_Arc (P 3 4) 5 7 8.
